@@ -1,5 +1,5 @@
 (* C07 - the property-level statements assembled from the lemma files. *)
-From Coq Require Import ZArith List Bool Reals Lra.
+From Coq Require Import ZArith List Bool Reals Lra Lia.
 Require Import MV.Lib.Base MV.C07.Model MV.C07.Gen MV.C07.Mesh MV.C07.Proofs_Base.
 Import ListNotations.
 Open Scope R_scope.
@@ -55,3 +55,255 @@ Proof.
   - intros. apply defect_consts.
   - reflexivity.
 Qed.
+
+(* ====================================================================== rigid motions and scales *)
+Require Import MV.C07.Proofs_Rigid MV.C07.Proofs_MeshRigid MV.C07.Proofs_Angles MV.C07.Proofs_Interp MV.C07.Proofs_GB MV.C07.Proofs_Renum
+  MV.C07.Proofs_Count MV.C07.Proofs_GBfull MV.C07.Proofs_Findings.
+
+(* For EVERY rotation matrix Q (Q^T Q = I, det Q = 1), EVERY translation t and EVERY well-formed mesh:
+   scalar quantities are unchanged, positions move with the mesh, directions rotate. *)
+Definition rigid_invariance_statement : Prop :=
+  forall (Q : rotation) (t : V3) (m : mesh R), wf_mesh m ->
+  let rg := rigid Q t in let rt := rot Q in let m' := map_mesh rg m in
+  edge_length Rops m' = edge_length Rops m /\
+  edge_middle_point Rops m' = map rg (edge_middle_point Rops m) /\
+  face_area Rops m' = face_area Rops m /\
+  face_normals Rops m' = map rt (face_normals Rops m) /\
+  face_barycenter Rops m' = map rg (face_barycenter Rops m) /\
+  corner_pairs Rops m' = corner_pairs Rops m /\
+  cotangent Rops m' = cotangent Rops m /\
+  cotan_weights Rops m' = cotan_weights Rops m /\
+  degree m' = degree m /\
+  (forall zb pi ang, angle_defects Rops zb pi ang m' = angle_defects Rops zb pi ang m) /\
+  (forall w ang, vertex_normals Rops w ang m' = map rt (vertex_normals Rops w ang m)) /\
+  cell_volume Rops m' = cell_volume Rops m /\
+  cell_barycenter Rops m' = map rg (cell_barycenter Rops m) /\
+  euler_characteristic m' = euler_characteristic m /\
+  (forall n, mean_edge_length Rops m' n = mean_edge_length Rops m n) /\
+  (forall n, mean_face_area Rops m' n = mean_face_area Rops m n) /\
+  (forall n, mean_cell_volume Rops m' n = mean_cell_volume Rops m n) /\
+  total_area Rops m' = total_area Rops m /\
+  (verts m <> [] -> barycenter Rops m' = rg (barycenter Rops m)).
+
+Lemma rigid_invariance_proof : rigid_invariance_statement.
+Proof.
+  intros Q t m WF rg rt m'. subst rg rt m'. repeat apply conj.
+  - now apply edge_length_rigid.
+  - now apply edge_middle_point_rigid.
+  - now apply face_area_mesh_rigid.
+  - now apply face_normals_rigid.
+  - now apply face_barycenter_rigid.
+  - now apply corner_pairs_rigid.
+  - now apply cotangent_rigid.
+  - now apply cotan_weights_rigid.
+  - apply degree_rigid.
+  - intros. apply angle_defects_rigid.
+  - intros. now apply vertex_normals_rigid.
+  - now apply cell_volume_mesh_rigid.
+  - now apply cell_barycenter_rigid.
+  - apply euler_rigid.
+  - intros. now apply mean_edge_length_rigid.
+  - intros. now apply mean_face_area_rigid.
+  - intros. now apply mean_cell_volume_rigid.
+  - now apply total_area_rigid.
+  - now apply barycenter_mesh_rigid.
+Qed.
+
+(* non-vacuity: a genuine rotation (3-4-5 about z) and a well-formed mesh (one triangle, one tetrahedron) *)
+Definition ex_mesh : mesh R :=
+  mkmesh [(0, 0, 0); (1, 0, 0); (0, 1, 0); (0, 0, 1)] [(0, 1); (1, 2); (0, 2)]%Z [[0; 1; 2]]%Z [[0; 1; 2; 3]]%Z.
+Example ex_mesh_wf : wf_mesh ex_mesh.
+Proof.
+  constructor; unfold in_rng, zlen; cbn.
+  - intros e [<-|[<-|[<-|[]]]]; cbn; lia.
+  - intros F [<-|[]]. split; [cbn; lia|]. intros v [<-|[<-|[<-|[]]]]; lia.
+  - intros C [<-|[]]. split; [reflexivity|]. intros v [<-|[<-|[<-|[<-|[]]]]]; lia.
+Qed.
+Example ex_rotation_moves : rot rot345 (1, 0, 0) = (3 / 5, 4 / 5, 0).
+Proof. unfold rot, rot345; cbn. apply vec_eq3; field. Qed.
+
+(* uniform scale s > 0: lengths s, areas s^2, volumes s^3, angle pairs s^2 (angles 1), cotangents 1, normals 1,
+   midpoints and barycentres move with the mesh *)
+Definition scaling_statement : Prop :=
+  forall s : R, 0 < s -> let sc := scl s in
+  (forall A B, g_edge_length Rops (sc A) (sc B) = s * g_edge_length Rops A B) /\
+  (forall A B, g_edge_middle Rops (sc A) (sc B) = sc (g_edge_middle Rops A B)) /\
+  (forall A B C, g_triangle_area Rops (sc A) (sc B) (sc C) = s * s * g_triangle_area Rops A B C) /\
+  (forall A B C D, g_quad_area Rops (sc A) (sc B) (sc C) (sc D) = s * s * g_quad_area Rops A B C D) /\
+  (forall A B C, g_angle3 Rops (sc A) (sc B) (sc C) = (s * s * fst (g_angle3 Rops A B C), s * s * snd (g_angle3 Rops A B C))) /\
+  (forall A B C, 0 < n2 (cross (A -v B) (C -v B)) -> g_cotan Rops (sc A) (sc B) (sc C) = g_cotan Rops A B C) /\
+  (forall A B C, 0 < n2 (cross (B -v A) (C -v A)) -> g_face_normal Rops (sc A) (sc B) (sc C) = g_face_normal Rops A B C) /\
+  (forall A B C D, g_cell_volume Rops (sc A) (sc B) (sc C) (sc D) = s * s * s * g_cell_volume Rops A B C D) /\
+  (forall l, g_face_bary Rops (map sc l) = sc (g_face_bary Rops l)) /\
+  (forall l, g_cell_bary Rops (map sc l) = sc (g_cell_bary Rops l)) /\
+  (forall l, g_barycenter Rops (map sc l) = sc (g_barycenter Rops l)).
+
+Lemma scaling_proof : scaling_statement.
+Proof.
+  intros s Hs sc. subst sc. repeat apply conj; intros.
+  - now apply distance_scale.
+  - apply edge_middle_scale.
+  - now apply triangle_area_scale.
+  - now apply quad_area_scale.
+  - now apply angle3_scale.
+  - now apply cotan_scale.
+  - now apply face_normal_scale.
+  - now apply cell_volume_scale.
+  - apply mean_scale.
+  - apply mean_scale.
+  - apply mean_scale.
+Qed.
+
+(* ====================================================================== renumbering *)
+Definition renumbering_statement : Prop :=
+  (forall (m m' : mesh R) (sigma : Z -> Z), wf_mesh m ->
+     (forall v, in_rng m v -> P Rops m' (sigma v) = P Rops m v) ->
+     faces m' = map (map sigma) (faces m) -> cells m' = map (map sigma) (cells m) ->
+     edges m' = map (fun e => (sigma (fst e), sigma (snd e))) (edges m) ->
+     edge_length Rops m' = edge_length Rops m /\ edge_middle_point Rops m' = edge_middle_point Rops m /\
+     face_area Rops m' = face_area Rops m /\ face_normals Rops m' = face_normals Rops m /\
+     face_barycenter Rops m' = face_barycenter Rops m /\ corner_pairs Rops m' = corner_pairs Rops m /\
+     cotangent Rops m' = cotangent Rops m /\ cell_volume Rops m' = cell_volume Rops m /\
+     cell_barycenter Rops m' = cell_barycenter Rops m /\ total_area Rops m' = total_area Rops m) /\
+  (* rotating the vertex list of a face *)
+  (forall A B C : V3, g_triangle_area Rops B C A = g_triangle_area Rops A B C /\
+                      g_face_normal Rops B C A = g_face_normal Rops A B C /\
+                      g_cot_face Rops B C A = tl (g_cot_face Rops A B C) ++ [hd 0 (g_cot_face Rops A B C)] /\
+                      g_distance Rops A B = g_distance Rops B A) /\
+  (forall A B C D : V3, g_quad_area Rops B C D A = g_quad_area Rops A B C D) /\
+  (forall a b : list V3, g_face_bary Rops (b ++ a) = g_face_bary Rops (a ++ b)).
+
+Lemma distance_sym (A B : V3) : g_distance Rops A B = g_distance Rops B A.
+Proof. rewrite !distance_def. f_equal. ring. Qed.
+
+Lemma renumbering_proof : renumbering_statement.
+Proof.
+  repeat apply conj.
+  - intros m m' sigma WF PTS FS CS ES. repeat apply conj.
+    + eapply edge_length_renum; eassumption.
+    + eapply edge_middle_point_renum; eassumption.
+    + eapply face_area_renum; eassumption.
+    + eapply face_normals_renum; eassumption.
+    + eapply face_barycenter_renum; eassumption.
+    + eapply corner_pairs_renum; eassumption.
+    + eapply cotangent_renum; eassumption.
+    + eapply cell_volume_renum; eassumption.
+    + eapply cell_barycenter_renum; eassumption.
+    + eapply total_area_renum; eassumption.
+  - intros A B C. repeat apply conj; [apply triangle_area_cyc|apply face_normal_cyc|apply cot_face_cyc|apply distance_sym].
+  - apply quad_area_cyc.
+  - apply face_bary_rotate.
+Qed.
+
+(* ====================================================================== angle sum *)
+(* the corner pairs the model computes for a triangular face [a;b;c] are the three pairs below
+   (Proofs_Angles.face_corner_pairs_tri).
+   math.atan2(s, c) for s > 0 is the angle theta in (0, pi) with (cos theta, sin theta) = (c, s)/|(c, s)|:
+   atan2_pair (c, s) = acos (c / sqrt (c^2 + s^2)) is that angle (atan2_up_spec). *)
+Definition angle_sum_statement : Prop :=
+  (forall (m : mesh R) (a b c : Z), face_corner_pairs Rops m [a; b; c]
+      = [g_corner_angle Rops (P Rops m c) (P Rops m a) (P Rops m b);
+         g_corner_angle Rops (P Rops m a) (P Rops m b) (P Rops m c);
+         g_corner_angle Rops (P Rops m b) (P Rops m c) (P Rops m a)]) /\
+  (forall sn cs : R, 0 < sn -> let th := atan2_pair (cs, sn) in
+      0 < th < PI /\ cos th = cs / sqrt (cs * cs + sn * sn) /\ sin th = sn / sqrt (cs * cs + sn * sn)) /\
+  (forall A B C : V3, 0 < n2 (cross (B -v A) (C -v A)) ->
+     let p1 := g_corner_angle Rops C A B in let p2 := g_corner_angle Rops A B C in let p3 := g_corner_angle Rops B C A in
+     (0 < snd p1 /\ 0 < snd p2 /\ 0 < snd p3) /\
+     cmul (cmul (cnormalize p1) (cnormalize p2)) (cnormalize p3) = (-1, 0) /\
+     atan2_pair p1 + atan2_pair p2 + atan2_pair p3 = PI).
+
+Lemma angle_sum_proof : angle_sum_statement.
+Proof.
+  repeat apply conj.
+  - intros. apply face_corner_pairs_tri.
+  - intros sn cs H. apply (atan2_up_spec sn cs H).
+  - intros A B C ND. apply (triangle_angle_sum A B C ND).
+Qed.
+
+Example angle_sum_nonvacuous : 0 < n2 (cross ((1, 0, 0) -v (0, 0, 0)) ((0, 1, 0) -v (0, 0, 0))).
+Proof. unfR. lra. Qed.
+
+(* ====================================================================== Gauss-Bonnet *)
+Definition gauss_bonnet_counting_statement : Prop :=
+  forall (m : mesh R) (ang : list R) (Eb : nat),
+  let nV := length (verts m) in let nF := length (faces m) in let nE := length (edges m) in
+  (forall F, In F (faces m) -> zlen F = 3%Z /\ forall v, In v F -> (0 <= v < Z.of_nat nV)%Z) ->
+  (forall f, (0 <= f < Z.of_nat nF)%Z -> znth ang (3 * f) 0 + znth ang (3 * f + 1) 0 + znth ang (3 * f + 2) 0 = PI) ->
+  (3 * nF = 2 * (nE - Eb) + Eb)%nat -> (Eb <= nE)%nat -> count_true (border_flags m) = Eb ->
+  ssum Rops (angle_defects Rops false PI ang m) = 2 * PI * IZR (euler_characteristic m).
+
+Lemma gauss_bonnet_counting_proof : gauss_bonnet_counting_statement.
+Proof. intros m ang Eb nV nF nE T A. apply (gauss_bonnet_counting m ang T A Eb). Qed.
+
+(* Full statement: EVERY manifold triangulation (closed or with border; `manifold` is the explicit combinatorial
+   condition of Proofs_Count.v, decided by the boolean `manifoldb` of Mesh.v) with non-degenerate triangles:
+   the defects the model computes from its own corner angles sum to 2 pi (V - E + F). *)
+Definition gauss_bonnet_statement : Prop :=
+  forall m : mesh R, let nV := length (verts m) in
+  manifold (faces m) (edges m) nV ->
+  (forall F, In F (faces m) -> forall v, In v F -> (0 <= v < Z.of_nat nV)%Z) ->
+  (forall a b c, In [a; b; c]%Z (faces m) -> 0 < n2 (cross (P Rops m b -v P Rops m a) (P Rops m c -v P Rops m a))) ->
+  ssum Rops (angle_defects Rops false PI (model_angles m) m) = 2 * PI * IZR (euler_characteristic m).
+
+Lemma gauss_bonnet_proof : gauss_bonnet_statement.
+Proof. intros m nV M RNG ND. now apply gauss_bonnet_model. Qed.
+
+(* non-vacuity: a closed surface (tetrahedron, chi = 2) and a surface with border (one triangle) are manifold *)
+Definition tetra_mesh : mesh R :=
+  mkmesh [(0, 0, 0); (1, 0, 0); (0, 1, 0); (0, 0, 1)] [(0, 1); (0, 2); (1, 2); (0, 3); (1, 3); (2, 3)]%Z
+         [[0; 2; 1]; [0; 1; 3]; [1; 2; 3]; [0; 3; 2]]%Z [].
+Example tetra_manifold : manifold (faces tetra_mesh) (edges tetra_mesh) (length (verts tetra_mesh)).
+Proof. apply manifoldb_spec. vm_compute. reflexivity. Qed.
+Example triangle_manifold : manifold (faces ex_mesh) (edges ex_mesh) (length (verts ex_mesh)).
+Proof. apply manifoldb_spec. vm_compute. reflexivity. Qed.
+Example tetra_nondegenerate : forall a b c, In [a; b; c]%Z (faces tetra_mesh) ->
+  0 < n2 (cross (P Rops tetra_mesh b -v P Rops tetra_mesh a) (P Rops tetra_mesh c -v P Rops tetra_mesh a)).
+Proof.
+  intros a b c [E|[E|[E|[E|[]]]]]; inversion E; subst; cbv [P znth verts tetra_mesh Z.ltb Z.compare Z.to_nat Pos.to_nat Pos.iter_op nth Nat.add];
+    unfR; nra.
+Qed.
+
+(* ====================================================================== interpolation of constants *)
+Definition interpolate_constant_statement : Prop :=
+  forall (m : mesh R) (c : R),
+  let nV := length (verts m) in let nF := length (faces m) in let nC := length (corners (faces m)) in
+  (forall F, In F (faces m) -> F <> [] /\ forall v, In v F -> (0 <= v < Z.of_nat nV)%Z) ->
+  (forall v, (0 <= v < Z.of_nat nV)%Z -> exists F, In F (faces m) /\ In v F) ->
+  interpolate_vertices_to_faces Rops 0 Rplus (smul_l Rops) Rdiv m (repeat c nV) = repeat c nF /\
+  (forall w area ang, w <> WSum ->
+     (forall f, (0 <= f < Z.of_nat nF)%Z -> 0 < znth area f 0) -> (forall k, (0 <= k < Z.of_nat nC)%Z -> 0 < znth ang k 0) ->
+     interpolate_faces_to_vertices Rops 0 Rplus (smul_l Rops) Rdiv w area ang m (repeat c nF) = repeat c nV) /\
+  (forall w ang, w = WUniform \/ w = WAngle -> (forall k, (0 <= k < Z.of_nat nC)%Z -> 0 < znth ang k 0) ->
+     average_corners_to_vertices Rops 0 Rplus (smul_l Rops) Rdiv w ang m (repeat c nC) = Some (repeat c nV)) /\
+  scatter_vertices_to_corners 0 m (repeat c nV) = repeat c nC /\
+  scatter_faces_to_corners 0 m (repeat c nF) = repeat c nC.
+
+Lemma interpolate_constant_proof : interpolate_constant_statement.
+Proof.
+  intros m c nV nF nC HF USED. repeat apply conj.
+  - apply v2f_const. exact HF.
+  - intros. now apply f2v_const.
+  - intros. now apply c2v_const.
+  - apply sv2c_const. intros F H. apply (HF F H).
+  - apply sf2c_const.
+Qed.
+
+Example interpolate_constant_nonvacuous :
+  let m := ex_mesh in
+  (forall F, In F (faces m) -> F <> [] /\ forall v, In v F -> (0 <= v < 4)%Z) /\
+  (forall v, (0 <= v < 3)%Z -> exists F, In F (faces m) /\ In v F).
+Proof.
+  cbn. split.
+  - intros F [<-|[]]. split; [discriminate|]. intros v [<-|[<-|[<-|[]]]]; lia.
+  - intros v Hv. exists [0; 1; 2]%Z. split; [now left|]. cbn. lia.
+Qed.
+
+(* ====================================================================== recorded finding *)
+(* FULL statement (fails): the unit normal of a face does not depend on where its vertex list starts,
+     forall A B C D, g_face_normal A B C = g_face_normal B C D      ([A;B;C;D] and [B;C;D;A] are the same quad).
+   It holds for triangles (renumbering_statement) and for planar faces; for a skew quad it is refuted: *)
+Definition face_normal_rotation_refuted_statement : Prop :=
+  exists A B C D : V3,
+    0 < n2 (cross (B -v A) (C -v A)) /\ 0 < n2 (cross (C -v B) (D -v B)) /\
+    g_face_normal Rops A B C <> g_face_normal Rops B C D.
